@@ -99,6 +99,23 @@ def main():
                     continue
                 if not np.array_equal(od[nl:nl + n], c) or (od[:nl] != FILL).any() or (od[nl + n:] != FILL).any():
                     s.fail(f"extend_data:{step}", f"extend_dim moved or overwrote original samples (n={n}, kl={kl}, kr={kr})")
+    # ---- a requested bound of exactly 0 is a bound like any other
+    for first, n, step in ((3.0, 5, 1.0), (0.5, 4, 0.5), (2.0, 3, 0.25)):
+        arr0 = axis(first, step, n)
+        if arr0 is not None:
+            s.case(None, ("extend-to-zero", first, n, step))
+            out = extend_dim(arr0, "time", start=0.0, stop=first + n * step, fill_value=FILL, left_closed=True, right_closed=False)
+            want_n = n + int(round(first / step))
+            if out.sizes["time"] != want_n or abs(float(out.coords["time"].data[0])) > 1e-9:
+                s.fail(f"extend_zero_start:{step}", f"extend_dim(start=0.0) on an axis starting at {first} (step {step}, n={n}): {out.sizes['time']} samples from {out.coords['time'].data[0]}, expected {want_n} from 0.0")
+        neg = xr.DataArray(np.arange(n, dtype=float) * step - first - n * step, dims=("time",),
+                           coords={"time": create_range_dim("time", start=-first - n * step, stop=-first, step=step)})
+        if neg.sizes["time"] == n:
+            s.case(None, ("extend-to-zero-stop", first, n, step))
+            out = extend_dim(neg, "time", start=-first - n * step, stop=0.0, fill_value=FILL, left_closed=True, right_closed=True)
+            want_n = n + int(round(first / step)) + 1
+            if out.sizes["time"] != want_n or abs(float(out.coords["time"].data[-1])) > 1e-9:
+                s.fail(f"extend_zero_stop:{step}", f"extend_dim(stop=0.0, right_closed=True) on an axis ending at {-first - step}: {out.sizes['time']} samples up to {out.coords['time'].data[-1]}, expected {want_n} up to 0.0")
     # ---- arrays with a second dimension: widths are counted along the named dimension, whatever the total number of elements
     for n, nf, order in itertools.product([4, 9, 10], [1, 2, 4], [("time", "frequency"), ("frequency", "time")]):
         tc = np.arange(n) * 0.5 + 1.0
